@@ -196,20 +196,20 @@ def gen_cases(run, scale):
             d["cls"] = cls
         return d
 
-    for _ in range(int(5000 * scale)):     # format_datetime on STIXdatetime / datetime
+    for _ in range(int(2500 * scale)):     # format_datetime on STIXdatetime / datetime
         if rng.random() < 0.8:
             p, c = rng.choice(PC)
             add("fmt", p, c, dt_input("stix"))
         else:
             add("fmt", "any", "exact", dt_input())
-    for _ in range(int(6000 * scale)):     # parse_into_datetime on datetimes and dates
+    for _ in range(int(3000 * scale)):     # parse_into_datetime on datetimes and dates
         p, c = rng.choice(PC)
         if rng.random() < 0.12:
             f = gen_fields(rng)
             add("parse", p, c, {"date": f[:3]})
         else:
             add("parse", p, c, dt_input())
-    for _ in range(int(3000 * scale)):     # TimestampProperty.clean + encoder
+    for _ in range(int(2000 * scale)):     # TimestampProperty.clean + encoder
         p, c = rng.choice(PC)
         r = rng.random()
         if r < 0.1:
@@ -218,7 +218,7 @@ def gen_cases(run, scale):
             add("prop", p, c, dt_input())
         else:
             add("prop", p, c, {"str": gen_string(rng)[0]})
-    for _ in range(int(2000 * scale)):     # timestamp properties of real objects
+    for _ in range(int(1200 * scale)):     # timestamp properties of real objects
         route = rng.choice(sorted(ROUTES))
         p, c = ROUTES[route]
         r = rng.random()
@@ -226,13 +226,13 @@ def gen_cases(run, scale):
             add("obj", p, c, dt_input(), route=route)
         else:
             add("obj", p, c, {"str": gen_string(rng)[0]}, route=route)
-    for _ in range(int(4500 * scale)):     # timestamp strings
+    for _ in range(int(3000 * scale)):     # timestamp strings
         p, c = rng.choice(PC)
         s, cl = gen_string(rng)
         add("parse", p, c, {"str": s}, scls=cl)
     for sp, sc in PC:                      # STIXdatetime values parsed earlier at another precision/constraint
         for tp, tc in PC:
-            for _ in range(max(1, int(24 * scale))):
+            for _ in range(max(1, int(12 * scale))):
                 inp = dt_input()
                 if inp["dt"][6] % 1000 == 0:
                     inp["dt"][6] = rng.choice([1, 999, 1001, 123456, 120001, 999999, 500500])
@@ -248,7 +248,7 @@ def gen_cases(run, scale):
                         add("obj", tp, tc, inp, route=rng.choice(routes))
                     else:
                         add("prop", tp, tc, inp)
-    for _ in range(int(300 * scale)):      # sub-second UTC offsets (legal in Python >= 3.7)
+    for _ in range(int(150 * scale)):      # sub-second UTC offsets (legal in Python >= 3.7)
         p, c = rng.choice(PC)
         add(rng.choice(["parse", "prop"]), p, c, dt_input(subsecond=True))
     return cases
@@ -501,7 +501,7 @@ def select_variant(run):
 
 def check(run):
     thorough = run.tier == "thorough"
-    scale = 12.0 if thorough else 1.0
+    scale = 22.0 if thorough else 1.0
     run.coverage["rule"] = (
         "boundary-biased datetimes (years {1,999,1000,1970,9999}+random, boundary microseconds, naive/aware, UTC offsets "
         "-14h..+14h incl. odd-second and sub-second ones, date objects) and timestamp strings (fraction lengths 0-9, "
